@@ -199,7 +199,7 @@ impl Check for C04 {
         let origins = rng.gen_range(1..=3u8);
         let nops = rng.gen_range(1..=12usize);
         let keys = rng.gen_range(1..=4u64);
-        let base = if rng.gen_bool(0.85) { rng.gen_range(1_000_000_000u64..60_000_000_000) } else { rng.gen_range(0..2 * HOUR_MS) };
+        let base = match rng.gen_range(0..20) { 0 => rng.gen_range(1_000..50 * 60_000), 1..=2 => rng.gen_range(2 * HOUR_MS..4 * HOUR_MS), _ => rng.gen_range(1_000_000_000u64..60_000_000_000) };
         let span = if rng.gen_bool(0.6) { rng.gen_range(4..HOUR_MS - 8) } else { rng.gen_range(HOUR_MS..6 * HOUR_MS) };
         let ops = gen_ops(&mut rng, nops, keys, origins, base / 4 * 4, span, 0.4);
         let mut events = Vec::new();
